@@ -240,6 +240,23 @@ theorem mem_pessimisticSet {pessDom : Rel} {S P : List Nat} {i : Nat} :
   unfold pessimisticSet
   simp only [List.mem_filter, Bool.not_eq_eq_eq_not, Bool.not_true, anyOther_eq_false_iff, mem_union]
 
+/-- the pessimistic set in terms of a semantic relation `pdom` decided by the oracle -/
+theorem mem_pessimisticSet_bridge {pessDom : Rel} (pdom : Nat → Nat → Prop)
+    (hC11 : ∀ j i, pessDom j i = true ↔ pdom j i) {S P : List Nat} {k : Nat} :
+    k ∈ pessimisticSet pessDom S P ↔
+      ((k ∈ S ∨ k ∈ P) ∧ ∀ j, (j ∈ S ∨ j ∈ P) → j ≠ k → ¬ pdom j k) := by
+  rw [mem_pessimisticSet]
+  constructor
+  · rintro ⟨h1, h2⟩
+    refine ⟨h1, fun j hj hne hd => ?_⟩
+    have := h2 j hj hne
+    rw [(hC11 j k).mpr hd] at this; exact absurd this (by simp)
+  · rintro ⟨h1, h2⟩
+    refine ⟨h1, fun j hj hne => ?_⟩
+    by_cases hd : pessDom j k = true
+    · exact absurd ((hC11 j k).mp hd) (h2 j hj hne)
+    · simpa using hd
+
 theorem mem_vogpToDiscard {isDom pessDom : Rel} {S P : List Nat} {i : Nat} :
     i ∈ vogpToDiscard isDom pessDom S P ↔
       i ∈ S ∧ i ∉ pessimisticSet pessDom S P ∧
